@@ -208,7 +208,7 @@ def run_sub(c):
 # ----------------------------------------------------------------------------------------------- point - polytope
 @st.composite
 def poly_case(draw, tier="quick"):
-    cfg = draw(st.sampled_from(["segment2", "segment3", "polygon2", "polygon3", "cuboid"]))
+    cfg = draw(st.sampled_from(["segment2", "segment3", "polygon2", "polygon3", "cuboid", "frustum", "quad_of_collection"]))
     return {"cfg": cfg, "v": draw(Z.params()), "q": [draw(st.integers(-8, 8)) for _ in range(3)], "k": draw(st.integers(-4, 4)), "st": [draw(st.integers(-2, 6)), draw(st.integers(-2, 6))],
             "coll": draw(st.sampled_from([0, 0, 2])), "derive": draw(st.sampled_from([None, None, "translation*", "+point", "scaling*", "k*identity"])), "move": [draw(st.integers(-4, 4)) for _ in range(3)]}
 
@@ -219,9 +219,64 @@ def seg_dist(p, a, b):
     return np.linalg.norm(p - (a + t * ab))
 
 
+def tri_dist(q, a, b, c):
+    """distance of the point q from the triangle abc of 3-space"""
+    n = np.cross(b - a, c - a)
+    foot = q - np.dot(q - a, n) / np.dot(n, n) * n
+    inside = all(np.dot(np.cross(y - x, foot - x), n) >= 0 for x, y in ((a, b), (b, c), (c, a)))
+    if inside:
+        return abs(np.dot(q - a, n)) / np.linalg.norm(n)
+    return min(seg_dist(q, a, b), seg_dist(q, b, c), seg_dist(q, c, a))
+
+
 def run_poly(c):
     cfg, v = c["cfg"], c["v"]
     ck = Checker()
+    if cfg in ("frustum", "quad_of_collection"):
+        # a truncated pyramid (square frustum, sheared by an integer frame): its four side faces are trapezoids - quadrilaterals that are
+        # not parallelograms; the library turns every 4-vertex face it takes out of a collection into a Rectangle object
+        from geometer import PolygonCollection, Polyhedron
+
+        a2, b2, h = 2 * (1 + abs(v[9]) % 3), 1 + abs(v[10]) % 3, 1 + abs(v[11]) % 4
+        if a2 == b2:
+            b2 += 3
+        o = np.array(v[0:3], float)
+        u, w0 = np.array(v[3:6], float), np.array(v[6:9], float)
+        x3 = np.cross(u, w0)
+        if not np.any(x3):
+            raise Skip("degenerate")
+        M = np.stack([u, w0, x3], axis=1)
+        loc = lambda x, y, z: o + M @ np.array([x, y, z], float)  # noqa: E731
+        sg = [(1, 1), (-1, 1), (-1, -1), (1, -1)]
+        bot = [loc(a2 * sx, a2 * sy, 0) for sx, sy in sg]
+        top = [loc(b2 * sx, b2 * sy, h) for sx, sy in sg]
+        faces = [bot, top] + [[bot[i], bot[(i + 1) % 4], top[(i + 1) % 4], top[i]] for i in range(4)]
+        s, t = c["st"]
+        lq = np.array([s - 2.0, t - 2.0, c["k"] / 2 + 1.0])
+        lim = a2 + (b2 - a2) * lq[2] / h
+        if 0 < lq[2] < h and abs(lq[0]) < lim and abs(lq[1]) < lim:
+            raise Skip("interior point of a polyhedron")
+        q = loc(*lq)
+        if cfg == "frustum":
+            S = Polyhedron(*[Polygon(*[P(x) for x in f]) for f in faces])
+            exp = min(min(tri_dist(q, f[0], f[1], f[2]), tri_dist(q, f[0], f[2], f[3])) for f in faces)
+        else:
+            k = 2 + abs(v[12]) % 4
+            S = PolygonCollection([Polygon(*[P(x) for x in f]) for f in faces])[k]
+            f = faces[k]
+            exp = min(tri_dist(q, f[0], f[1], f[2]), tri_dist(q, f[0], f[2], f[3]))
+        Q = P(q)
+        if c["coll"]:
+            Q = PointCollection(np.stack([Q.array, Q.array * 3.0]))
+            exp = np.array([exp, exp])
+        site = f"dist:{cfg}" + (":coll" if c["coll"] else "")
+        for tag, fn in (("", lambda: dist(S, Q)), (":swapped", lambda: dist(Q, S))):
+            r, ff = call(site + tag, fn)
+            if ff:
+                ck.add(ff)
+            elif ck.check(np.shape(r) == np.shape(exp), site + tag + ":shape", (np.shape(r), np.shape(exp))):
+                ck.check(close(r, exp, 1e-6), site + tag + ":value", (np.ravel(r)[:2].tolist(), np.ravel(exp)[:2].tolist()))
+        return ck.result()
     if cfg.startswith("segment"):
         d = int(cfg[-1])
         a, b = np.array(v[0:d], float), np.array(v[d : 2 * d], float)
